@@ -395,6 +395,15 @@ Qed.
 Lemma WI_provide s t : WI s -> WI (fst (provide s t)).
 Proof. apply WI_same; reflexivity. Qed.
 
+Lemma WI_start_instance s u self parent s' o p : start_instance roles s u self parent = (s', o, p) -> incl o tr -> WI s -> WI s'.
+Proof.
+  unfold start_instance. destruct (handle roles s u TRD 0%nat self) as [[s1 o1] p1] eqn:E1.
+  destruct (handle roles s1 u TL 0%nat parent) as [[s2 o2] p2] eqn:E2. intros H Hi HW; inversion H; subst.
+  assert (W1 : WI s1) by (eapply WI_handle; [exact E1|eapply incl_app_l; exact Hi|exact HW]).
+  assert (W2 : WI s2) by (eapply WI_handle; [exact E2|eapply incl_app_r; exact Hi|exact W1]).
+  destruct p2; [exact W2|apply WI_upd_actor; [wp|exact W2]].
+Qed.
+
 Lemma WI_try_restarted s u snd s' o p : try_restarted roles s u snd = (s', o, p) -> incl o tr -> WI s -> WI s'.
 Proof.
   unfold try_restarted. destruct (get s u) as [a|] eqn:Ea; [|intros H; inversion H; subst; auto].
@@ -405,8 +414,8 @@ Proof.
   - intros s1 o1 sb ob pb _ W1. apply bind_WI.
     + intros sa oa pa E Hia. eapply WI_handle; [exact E|exact Hia|exact W1].
     + intros s2 o2 sc oc pc _ W2. destruct (provide s2 (a_tok a)) as [s3 inst] eqn:Ep.
-      intros E _. inversion E; subst.
-      repeat (apply WI_deliver_plain; [discriminate|intros w; discriminate|]).
+      intros E Hi3. eapply WI_start_instance; [exact E|exact Hi3|].
+      apply WI_deliver_plain; [discriminate|intros w; discriminate|].
       apply WI_upd_actor; [wp|]. change s3 with (fst (s3, inst)). rewrite <- Ep. apply WI_provide. exact W2.
 Qed.
 
@@ -741,7 +750,10 @@ Proof.
   - intros s1 o1 p1 E. eapply nt_handle; [|exact E]. intros w; discriminate.
   - intros s1 s2 o2 p2. apply bind_nt.
     + intros sa oa pa E. eapply nt_handle; [|exact E]. intros w; discriminate.
-    + intros sa sb ob pb. destruct (provide sa (a_tok a)). intros H; inversion H; subst; reflexivity.
+    + intros sa sb ob pb. destruct (provide sa (a_tok a)). unfold start_instance.
+      match goal with |- context [handle roles ?x u TRD 0%nat ?y] => destruct (handle roles x u TRD 0%nat y) as [[sc oc] pc] eqn:Ec end.
+      destruct (handle roles sc u TL 0%nat (a_parent a)) as [[sd od] pd] eqn:Ed. intros H; inversion H; subst.
+      apply nt_app; [eapply nt_handle; [|exact Ec]; intros w; discriminate|eapply nt_handle; [|exact Ed]; intros w; discriminate].
 Qed.
 Lemma nt_apply_directive s u r d snd s' o p : apply_directive roles s u r d snd = (s', o, p) -> nt o.
 Proof.
